@@ -23,6 +23,43 @@ def split_meta(line):
         a, b = line.split(' # ', 1); return a, set(b.split())
     return line, set()
 
+# ------------------------------------------------------------------------------------------------ explicit stacks, recipes
+
+def mk_stack(stackspec):
+    """`IPv6+UDP+CoAPs`: an explicit PacketParser; suffix `s` = CoAP options in semantic mode, `p` = predict_next"""
+    from microschc.parser.parser import PacketParser
+    from microschc.protocol.ipv4 import IPv4Parser
+    from microschc.protocol.ipv6 import IPv6Parser
+    from microschc.protocol.udp import UDPParser
+    from microschc.protocol.coap import CoAPParser, CoAPOptionMode
+    from microschc.protocol.sctp import SCTPParser
+    cls = {'IPv4': IPv4Parser, 'IPv6': IPv6Parser, 'UDP': UDPParser, 'CoAP': CoAPParser, 'SCTP': SCTPParser}
+    ps = []
+    for tok in stackspec.split('+'):
+        name = tok.rstrip('ps'); kw = {}
+        flags = tok[len(name):]
+        if 'p' in flags: kw['predict_next'] = True
+        if 's' in flags: kw['interpret_options'] = CoAPOptionMode.SEMANTIC
+        ps.append(cls[name](**kw))
+    return PacketParser('explicit', ps)
+
+def recipe_rule(fields, recipe, rid):
+    """the rule a recipe denotes for a parsed packet: field k gets the pairing coded by recipe[k % len(recipe)] —
+    v ignore/value-sent (variable length for CoAP options), n equal/not-sent, l MSB(first half)/LSB, m match-mapping
+    {value: index 0}/mapping-sent, c ignore/compute on the computable ids (else v). `fields`: [(id, ABUF token, position)]"""
+    out = []
+    for k, (fid, val, pos) in enumerate(fields):
+        code = recipe[k % len(recipe)]; L = len(val) - 2
+        if code == 'c' and fid not in rulegen.COMPUTABLE: code = 'v'
+        if code == 'n': f = {'mo': 'eq', 'cda': 'ns', 'tv': ('b', val), 'len': L}
+        elif code == 'l': f = {'mo': 'msb', 'cda': 'lsb', 'tv': ('b', val[:2 + L // 2]), 'len': L}
+        elif code == 'm': f = {'mo': 'mm', 'cda': 'ms', 'tv': ('m', [(val, 'L:0')]), 'len': L}
+        elif code == 'c': f = {'mo': 'ig', 'cda': 'co', 'tv': ('b', 'L:'), 'len': L}
+        else: f = {'mo': 'ig', 'cda': 'vs', 'tv': ('b', 'L:'), 'len': 0 if 'Option' in fid else L}
+        f.update(id=fid, pos=pos, dir='B')
+        out.append(f)
+    return {'id': rid, 'nature': 'c', 'fields': out}
+
 # ------------------------------------------------------------------------------------------------ impl
 
 def impl(line):
@@ -98,6 +135,17 @@ def impl(line):
         if op == 'mdecompressd':
             rules = p_rules(T); s = mk_buf(T.next()); d = DirectionIndicator(DIRS[T.next()])
             return show_buf(manager('CoAP', rules).decompress(s, direction=d))
+        if op == 'uroundtrip':
+            # explicit (possibly semantic) stack: parse, rule by recipe from the parsed fields, compress, decompress WITH the
+            # parser as unparser (C01 through the un-parsing path, C19)
+            pp = mk_stack(T.next()); recipe = T.next(); rid = T.next(); pk = mk_buf(T.next()); dtok = T.next()
+            d = None if dtok == '-' else DirectionIndicator(DIRS[dtok])
+            pd = pp.parse(pk)
+            if d is not None: pd.direction = d
+            rule = mk_rule(recipe_rule([(sid(f.id), show_buf(f.value), f.position) for f in pd.fields], recipe, rid))
+            c = compress(pd, rule, direction=d)
+            dd = decompress(c, rule, unparser=pp, direction=d)
+            return f'{show_buf(c)} {show_buf(dd)}'
         if op in ('fcompress', 'fdecompress', 'froundtrip'):
             n = T.nat(); ctxs = [mk_context(p_context(T)) for _ in range(n)]; pk = mk_buf(T.next()); ifc = unesc(T.next())
             schc = front_module().SCHC(contexts=ctxs)
@@ -180,6 +228,12 @@ def oracle(line, out):
         if 'c09' in meta:
             raw = p['raw'][2:]
             if err or out.split(' ')[1][2:] != raw: v.append(('C09', f'computed fields not regenerated: {out} vs {raw}'))
+    elif op == 'uroundtrip':
+        T.next(); T.next(); T.next(); pk = T.next()
+        if 'c01u' in meta and (err or out.split(' ')[1][2:] != pk[2:]):
+            v.append(('C01', f'round trip through the unparser gives {out} for {pk}'))
+            v.append(('C19', f'round trip through the unparser gives {out} for {pk}'))
+            if 'c09u' in meta: v.append(('C09', f'round trip through the unparser (compute fields) gives {out} for {pk}'))
     elif op == 'matchall':
         rs = p_rules(T); p = p_packet(T)
         exp = ' '.join(str(i) for i, r in enumerate(rs) if spec.applicable(p, r)) + ';'
@@ -573,6 +627,9 @@ def gen(props, tier, rng):
             if rng.random() < 0.2: s = s[:rng.randrange(0, len(s) + 1)]
             yield f"schc matchschc {e_rules(rules)} {rng.choice('LR')}:{s} # prefixfree"
             yield f"schc mdecompress {e_rules(rules)} {rng.choice('LR')}:{s} # prefixfree"
+    # ---------------------------------------------------------------- the un-parsing path (C01, C19, C09)
+    if props & {'C01', 'C19', 'C09'}:
+        yield from _gen_unparser(rng, q, props)
     # ---------------------------------------------------------------- C15
     if 'C15' in props:
         yield from _gen_c15(rng, q)
@@ -631,6 +688,26 @@ def _with_directions(rng, rule, pkt, every_position=None):
             out.append(f)
     r['fields'] = out
     return r
+
+def _gen_unparser(rng, q, props):
+    """explicit stacks with CoAP options in semantic mode (and predictive single parsers), rule by recipe, decompress with
+    the parser as unparser: every option-number / delta / length class, with and without payload, compute fields included"""
+    N = 40 if q else 400
+    specs = [('IPv6+UDP+CoAPs', 'IPv6-UDP-CoAP', True), ('IPv4+UDP+CoAPs', 'IPv4-UDP-CoAP', True), ('CoAPs', 'CoAP', False),
+             ('IPv6p', 'IPv6-UDP-CoAP', True), ('IPv4p', 'IPv4-UDP-CoAP', True), ('IPv6+UDPp', 'IPv6-UDP-CoAP', True),
+             ('IPv6+UDP+CoAP', 'IPv6-UDP-CoAP', True), ('SCTP', 'SCTP', True)]
+    recipes = ['v', 'n', 'vn', 'nlv', 'vlm', 'mnv', 'cv', 'cn', 'cvl', 'l']
+    styles = ['small', 'mixed', 'boundary', 'big', 'repeat', 'none']
+    for i in range(N):
+        stackspec, cfg, ip = specs[i % len(specs)]
+        rec = recipes[(i // len(specs)) % len(recipes)] if i % 3 else ''.join(rng.choice('vnlmc') for _ in range(rng.randrange(1, 7)))
+        if stackspec.endswith('CoAPs') and ip and (i // len(specs)) % 2 == 0 and 'c' not in rec: rec = 'c' + rec   # lengths / checksums over re-encoded options
+        if 'c' in rec and not ip: rec = rec.replace('c', 'v')
+        if 'C09' in props and 'C01' not in props and 'C19' not in props and 'c' not in rec: rec = 'c' + rec
+        data, _, _ = packets.gen_stack_packet(rng, cfg, correct=True, coap_style=styles[i % len(styles)])
+        rid = abuf(rulegen.rbits(rng, rng.randrange(1, 9)), rng.choice('LLR'))
+        tags = 'c01u' + (' c09u' if 'c' in rec else '')
+        yield f"schc uroundtrip {stackspec} {rec} {rid} L:{packets.bits_of(data)} {rng.choice('UD-')} # {tags}"
 
 def _gen_c15(rng, q):
     N = 60 if q else 500
